@@ -98,4 +98,93 @@ theorem mem_keys_sortDesc {votes : Votes} {c : Cand} : c ∈ (sortDesc votes).ma
   unfold keys
   exact ((sortDesc_perm votes).map _).mem_iff
 
+/-! ### congruence up to the out-of-fuel answer (for `Sel.eval`) -/
+
+theorem mapM_congr_nonfuel {α β : Type} (f1 f2 : α → Except Err β) (l : List α)
+    (h : ∀ a ∈ l, f1 a ≠ .error (.other "fuel") → f2 a = f1 a)
+    (hne : l.mapM f1 ≠ .error (.other "fuel")) : l.mapM f2 = l.mapM f1 := by
+  induction l with
+  | nil => rfl
+  | cons x xs ih =>
+    rw [List.mapM_cons, List.mapM_cons] at *
+    have hx := h x List.mem_cons_self
+    cases h1 : f1 x with
+    | error e =>
+      rw [h1] at hne hx
+      have he : e ≠ .other "fuel" := fun hc => hne (by rw [hc]; rfl)
+      rw [hx (fun hc => he (by cases hc; rfl))]
+      rfl
+    | ok r =>
+      rw [h1] at hne hx
+      rw [hx (fun hc => by cases hc)]
+      have hxs : xs.mapM f1 ≠ .error (.other "fuel") := by
+        intro hc
+        apply hne
+        simp only [bind, Except.bind, hc]
+      have := ih (fun a ha => h a (List.mem_cons_of_mem _ ha)) hxs
+      simp only [bind, Except.bind, this]
+
+theorem coalitionBracketer_congr (members : Cand → Nat) (evs1 evs2 : List (Nat × Seatless)) (d1 d2 : Seatless)
+    (votes : Votes)
+    (h : ∀ k, dictGet evs1 k d1 votes ≠ .error (.other "fuel") → dictGet evs2 k d2 votes = dictGet evs1 k d1 votes)
+    (hne : coalitionBracketer members evs1 d1 votes ≠ .error (.other "fuel")) :
+    coalitionBracketer members evs2 d2 votes = coalitionBracketer members evs1 d1 votes := by
+  have hm := mapM_congr_nonfuel
+    (fun k => (do let r ← dictGet evs1 k d1 votes; pure (k, r) : Except Err (Nat × List Cand)))
+    (fun k => (do let r ← dictGet evs2 k d2 votes; pure (k, r) : Except Err (Nat × List Cand)))
+    (sortedDistinct (((sortDesc votes).map (fun p : Cand × Rat => p.1)).map members))
+    (by
+      intro k _ hk
+      have : dictGet evs1 k d1 votes ≠ .error (.other "fuel") := by
+        intro hc; apply hk; simp only [hc, bind, Except.bind]
+      simp only [h k this])
+    (by
+      intro hc; apply hne
+      show (do
+        let passed ← (sortedDistinct (((sortDesc votes).map (fun p : Cand × Rat => p.1)).map members)).mapM
+          (fun k => (do let r ← dictGet evs1 k d1 votes; pure (k, r) : Except Err (Nat × List Cand)))
+        pure (((sortDesc votes).map (fun p : Cand × Rat => p.1)).filter (fun c => (dictGet passed (members c) []).contains c))) = _
+      rw [hc]; rfl)
+  show (do
+      let passed ← (sortedDistinct (((sortDesc votes).map (fun p : Cand × Rat => p.1)).map members)).mapM
+        (fun k => (do let r ← dictGet evs2 k d2 votes; pure (k, r) : Except Err (Nat × List Cand)))
+      pure (((sortDesc votes).map (fun p : Cand × Rat => p.1)).filter (fun c => (dictGet passed (members c) []).contains c))) =
+    (do
+      let passed ← (sortedDistinct (((sortDesc votes).map (fun p : Cand × Rat => p.1)).map members)).mapM
+        (fun k => (do let r ← dictGet evs1 k d1 votes; pure (k, r) : Except Err (Nat × List Cand)))
+      pure (((sortDesc votes).map (fun p : Cand × Rat => p.1)).filter (fun c => (dictGet passed (members c) []).contains c)))
+  rw [hm]
+
+theorem propertyLoop_congr (prop : Cand → Option Nat) (evs1 evs2 : List (Nat × Option Seatless))
+    (d1 d2 : Option Seatless) (votes : Votes)
+    (h : ∀ v, propertyVariant evs1 d1 votes v ≠ .error (.other "fuel") →
+      propertyVariant evs2 d2 votes v = propertyVariant evs1 d1 votes v) :
+    ∀ (cs : List Cand) (cache : List (Option Nat × List Cand)),
+      propertyLoop prop evs1 d1 votes cs cache ≠ .error (.other "fuel") →
+      propertyLoop prop evs2 d2 votes cs cache = propertyLoop prop evs1 d1 votes cs cache := by
+  intro cs
+  induction cs with
+  | nil => intro cache _; rfl
+  | cons c cs ih =>
+    intro cache hne
+    simp only [propertyLoop] at hne ⊢
+    split
+    · rename_i e hfind
+      simp only [hfind] at hne
+      have hrest : propertyLoop prop evs1 d1 votes cs cache ≠ .error (.other "fuel") := by
+        intro hc; apply hne; simp only [bind, Except.bind, hc]
+      rw [ih cache hrest]
+    · rename_i hfind
+      simp only [hfind] at hne
+      have hv : propertyVariant evs1 d1 votes (prop c) ≠ .error (.other "fuel") := by
+        intro hc; apply hne; simp only [bind, Except.bind, hc]
+      rw [h _ hv]
+      cases hr : propertyVariant evs1 d1 votes (prop c) with
+      | error e => rfl
+      | ok r =>
+        rw [hr] at hne
+        have hrest : propertyLoop prop evs1 d1 votes cs ((prop c, r) :: cache) ≠ .error (.other "fuel") := by
+          intro hc; apply hne; simp only [bind, Except.bind, hc]
+        simp only [bind, Except.bind, ih _ hrest]
+
 end VL
